@@ -12,6 +12,12 @@ Driver for C14.  Protocol (one case = one document of one LSP session):
   wchg <hex utf8 text|!> workspace/didChangeWatchedFiles CREATED/CHANGED for the document's file (or an
                          indexing pass over it); the argument is the file's content, `!` = unreadable
   wdel                   workspace/didChangeWatchedFiles DELETED for the document's file
+  ren <id> <hex|!>       workspace/didRenameFiles: the document's file is renamed to URI number <id>
+                         (0 = the URI the case starts with); the argument is the content of the file
+                         at the new path; the document is followed to its new URI
+  at <id> <op>           wchg / wdel / peek (no event) for another URI; answers that URI's state
+  delta <prev> <cur>     semantic_tokens_delta_edits on two token arrays (comma separated u32s, `-` =
+                         empty): `m none` or `m <start> <deleteCount> <data|->` (wire units)
   tok <a> <b>            a semantic token with byte range [a, b) of the current text
   eof                    position of the end of the text (offset_to_position(content, len))
   impl <...>             (ignored here)
@@ -25,11 +31,24 @@ Answers:
 namespace TrustVerif.Drv.C14
 open TrustVerif.C14 TrustVerif.Drv
 
+/-- The stores are kept as tables (URI numbers < 8) and turned into the model's function stores
+for one step at a time: a chain of function updates would re-run every earlier event on each
+look-up. -/
 structure St where
-  server : Option Impl.Doc := none
-  /-- editor-side document (units); `none` once the editor-side specification has rejected an
-  event of this case (everything after that is `na`). -/
-  editor : Option (Option Spec.Doc) := some none
+  server : List (Option Impl.Doc) := List.replicate 8 none
+  /-- editor-side documents; `none` once the editor-side specification has rejected an event of
+  this case (everything after that is `na`). -/
+  editor : Option (List (Option Spec.Doc)) := some (List.replicate 8 none)
+  /-- URI number of the document the case follows -/
+  cur : Nat := 0
+
+def implStore (tbl : List (Option Impl.Doc)) : Impl.Store := fun v => (tbl.getD v none)
+def specStore (tbl : List (Option Spec.Doc)) : Spec.Store := fun v => (tbl.getD v none)
+
+/-- URIs an event can change. -/
+def touched : Impl.WEvent → List Nat
+  | .doc u _ => [u]
+  | .renamed o n _ => [o, n]
 
 def textOfHex? (h : String) : Option (List Char) := do
   let bs ← parseHex? h
@@ -57,26 +76,53 @@ def parseChanges : Nat → List String → Option (List Impl.Change)
     pure (.full t :: more)
   | _, _ => none
 
-def showDoc (st : St) : String :=
+/-- State of URI `u`: the model of the server's entry and how it compares with the editor's. -/
+def showDoc (st : St) (u : Nat) : String :=
+  let srv := st.server.getD u none
   let ed :=
-    match st.editor, st.server with
-    | none, _ => "na"
-    | some none, none => "same"
-    | some none, some d => if d.isOpen then "differ" else "same"
-    | some (some _), none => "differ"
-    | some (some e), some d =>
-      if d.isOpen && encode16 d.text == e.units && d.version == e.version then "same" else "differ"
-  match st.server with
+    match st.editor with
+    | none => "na"
+    | some es =>
+      match es.getD u none, srv with
+      | none, none => "same"
+      | none, some d => if d.isOpen then "differ" else "same"
+      | some _, none => "differ"
+      | some e, some d =>
+        if d.isOpen && encode16 d.text == e.units && d.version == e.version then "same" else "differ"
+  match srv with
   | none => s!"m null ed={ed}"
   | some d => s!"m v={d.version} text={hexOfText d.text} ed={ed}"
 
-def event (st : St) (e : Impl.Event) : St × Option String :=
-  let server := Impl.step st.server e
+def wevent (st : St) (e : Impl.WEvent) : St :=
+  let us := touched e
+  let srv' := Impl.wstep (implStore st.server) e
+  let server := us.foldl (fun tbl u => tbl.set u (srv' u)) st.server
   let editor := match st.editor with
     | none => none
-    | some d => Spec.step d (encodeEvent e)
-  let st' := { st with server := server, editor := editor }
-  (st', some (showDoc st'))
+    | some es =>
+      match Spec.wstep (specStore es) (encodeWEvent e) with
+      | none => none
+      | some ed' => some (us.foldl (fun tbl u => tbl.set u (ed' u)) es)
+  { st with server := server, editor := editor }
+
+def event (st : St) (e : Impl.Event) : St × Option String :=
+  let st' := wevent st (.doc st.cur e)
+  (st', some (showDoc st' st.cur))
+
+def parseU32s? (s : String) : Option (List Nat) :=
+  if s = "-" then some [] else (s.splitOn ",").mapM (·.toNat?)
+
+def chunk5 : List Nat → Option (List (List Nat))
+  | [] => some []
+  | a :: b :: c :: d :: e :: rest => (chunk5 rest).map ([a, b, c, d, e] :: ·)
+  | _ => none
+
+def showEdit (e : Impl.TokEdit (List Nat)) : String :=
+  let flat := e.data.flatten
+  s!"{e.start * 5} {e.deleteCount * 5} {if flat.isEmpty then "-" else showNats flat}"
+
+def diskArg? (h : String) : Option (Option (List Char)) :=
+  if h = "!" then some none else (textOfHex? h).map some
 
 def step (st : St) (line : String) : St × Option String :=
   match words line with
@@ -108,19 +154,44 @@ def step (st : St) (line : String) : St × Option String :=
   | ["save"] => event st .didSave
   | ["wdel"] => event st .watchedDeleted
   | ["wchg", h] =>
-    if h = "!" then event st (.watchedChanged none)
-    else match textOfHex? h with
-      | some t => event st (.watchedChanged (some t))
-      | none => (st, some "bad-op")
+    match diskArg? h with
+    | some d => event st (.watchedChanged d)
+    | none => (st, some "bad-op")
+  | ["ren", id, h] =>
+    match (id.toNat?).filter (· < 8), diskArg? h with
+    | some id, some d =>
+      let st' := { wevent st (.renamed st.cur id d) with cur := id }
+      (st', some (showDoc st' id))
+    | _, _ => (st, some "bad-op")
+  | ["at", id, "peek"] =>
+    match (id.toNat?).filter (· < 8) with
+    | some id => (st, some (showDoc st id))
+    | none => (st, some "bad-op")
+  | ["at", id, "wdel"] =>
+    match (id.toNat?).filter (· < 8) with
+    | some id => let st' := wevent st (.doc id .watchedDeleted); (st', some (showDoc st' id))
+    | none => (st, some "bad-op")
+  | ["at", id, "wchg", h] =>
+    match (id.toNat?).filter (· < 8), diskArg? h with
+    | some id, some d =>
+      let st' := wevent st (.doc id (.watchedChanged d)); (st', some (showDoc st' id))
+    | _, _ => (st, some "bad-op")
+  | ["delta", a, b] =>
+    match (parseU32s? a).bind chunk5, (parseU32s? b).bind chunk5 with
+    | some prev, some cur =>
+      match Impl.deltaEdits prev cur with
+      | [] => (st, some "m none")
+      | es => (st, some ("m " ++ joinWith " ; " (es.map showEdit)))
+    | _, _ => (st, some "bad-op")
   | ["tok", a, b] =>
-    match a.toNat?, b.toNat?, st.server with
+    match a.toNat?, b.toNat?, st.server.getD st.cur none with
     | some a, some b, some d =>
       let (l, c, n) := Impl.tokenPos d.text a b
       (st, some s!"m {l} {c} {n}")
     | some _, some _, none => (st, some "m no-document")
     | _, _, _ => (st, some "bad-op")
   | ["eof"] =>
-    match st.server with
+    match st.server.getD st.cur none with
     | some d =>
       let (l, c) := Impl.offsetToLineCol d.text (len8 d.text)
       (st, some s!"m {l} {c}")
